@@ -57,8 +57,7 @@ func checkC16Tx(sc *Scenario, st *Stats) *Violation {
 		r, script := c16TxRun(sc, rep%2 == 0, ex.HostValue)
 		for i := range r.Obs {
 			if r.Obs[i].Panic != "" {
-				st.Exclude("panic(C03)")
-				return nil
+				return violf("panic", "repetition %d, invocation %d: the VM panicked: %.1500s", rep, i, r.Obs[i].Panic)
 			}
 		}
 		if addrs == nil {
